@@ -432,6 +432,30 @@ fn sweep_bfv<W: Word + TryFrom<u128>>(sw: &mut Sweep, wname: &str) {
                         probe_bfv(b);
                     }
                 }),
+                ("with_capacity_unpushed_ops", &|b, n, _| {
+                    // an empty vector that has never been pushed to: its backend may hold no word at all
+                    let w = b.bit_width();
+                    let mut x = BitFieldVec::<W>::with_capacity(w, n.min(1000));
+                    let _ = catch(|| x.apply_in_place(|v| v));
+                    let _ = catch(|| x.reset());
+                    let _ = catch(|| black_box((x.iter().count(), (&x).into_iter_from(0).count(), x.pop())));
+                    let _ = catch(|| {
+                        let mut d = x.clone();
+                        x.copy(0, &mut d, 0, 10);
+                    });
+                    let _ = catch(|| {
+                        if let Ok(ch) = x.try_chunks_mut(4) {
+                            black_box(ch.count());
+                        }
+                    });
+                    let _ = catch(|| black_box(x.addr_of(0)));
+                    let bx: BitFieldVec<W, Box<[W]>> = x.clone().into();
+                    let _ = catch(|| black_box((bx.iter().count(), bx.get(0))));
+                    let mut bx = bx;
+                    let _ = catch(|| bx.apply_in_place(|v| v));
+                    let _ = catch(|| bx.reset());
+                    probe_bfv(&mut x);
+                }),
                 ("new_overwide_then_probe", &|_b, n, _| {
                     // a bit width larger than the word: rejected, or a vector that stays in its storage
                     for w in [W::BITS + 1, 2 * W::BITS + 3] {
